@@ -2,7 +2,7 @@ package rapid
 
 // C13: MakeFuzz / checkFuzz on arbitrary bytes.
 
-var alphaFuzz = []uint8{opReturn, opDrawBool, opDrawByte, opErrorf, opFatalA, opPanicStr, opSkip, opFatalIfBit}
+var alphaFuzz = []uint8{opReturn, opDrawBool, opDrawByte, opDrawWord, opErrorf, opFatalA, opPanicStr, opSkip, opFatalIfBit}
 
 func symBytes(name string, n int) []byte {
 	b := make([]byte, 0, n)
